@@ -113,13 +113,38 @@ def check(ctx):
     if len(wl) != 1:
         ctx.inst('R4', rdd, 'loop-until-complete', False, 'reading must loop until `size` bytes were collected (a single recv may return fewer bytes)')
     else:
-        conj = [norm(v) for v in wl[0].test.values] if isinstance(wl[0].test, ast.BoolOp) and isinstance(wl[0].test.op, ast.And) else [norm(wl[0].test)]
-        ctx.inst('R4', rdd, 'loop-until-complete', 'len(data) < %s' % sz in conj, 'the loop continues while len(data) < size; test %s' % conj)
+        from ..cfg import canon_test as _ct
+        conj = [_ct(v) for v in wl[0].test.values] if isinstance(wl[0].test, ast.BoolOp) and isinstance(wl[0].test.op, ast.And) else [_ct(wl[0].test)]
         rc = [c for c in walk_own(wl[0]) if method_call(c, 'recv')]
-        ctx.inst('R4', rdd, 'request-missing-bytes', len(rc) == 1 and norm(rc[0].args[0]).replace(' ', '') == '%s-len(data)' % sz, 'each recv asks for exactly size - len(data) bytes; found %s' % [norm(c) for c in rc])
         ex = [c for c in walk_own(wl[0]) if method_call(c, 'extend') and norm(c.func.value) == 'data']
         rets = [norm(s.value) for s in walk_own(rdd.node) if isinstance(s, ast.Return)]
-        ctx.inst('R4', rdd, 'accumulate-in-order', len(ex) == 1 and len(rc) == 1 and ex[0].args[0] is rc[0] and rets == ['data'] and len(wl[0].body) == 1, 'received chunks are appended in order and the buffer is returned')
+        body = effective(wl[0].body)
+        arg = norm(rc[0].args[0]).replace(' ', '') if len(rc) == 1 and rc[0].args else None
+        if arg == '%s-len(data)' % sz:
+            # scheme A: the missing byte count is recomputed from the buffer
+            ok_loop = _ct(ast.parse('len(data) < %s' % sz, mode='eval').body) in conj
+            ok_req = True
+            ok_acc = len(ex) == 1 and ex[0].args[0] is rc[0] and rets == ['data'] and len(body) == 1
+        elif len(rc) == 1 and isinstance(rc[0].args[0], ast.Name):
+            # scheme B: a counter of missing bytes (invariant counter == size - len(data)): starts at size, the loop runs while it is
+            # positive, each recv asks for it, the chunk is appended and the counter drops by the length of THAT chunk
+            cn = rc[0].args[0].id
+            init = [s_ for s_ in rdd.node.body if isinstance(s_, ast.Assign) and norm(s_.targets[0]) == cn]
+            ok_loop = _ct(ast.parse('%s > 0' % cn, mode='eval').body) in conj and len(init) == 1 and norm(init[0].value) == sz and init[0].lineno < wl[0].lineno
+            ok_req = True
+            chunk = None
+            for s_ in body:
+                if isinstance(s_, ast.Assign) and s_.value is rc[0] and isinstance(s_.targets[0], ast.Name):
+                    chunk = s_.targets[0].id
+            decs = [aug_form(s_) for s_ in body if aug_form(s_) and aug_form(s_)[0] == cn]
+            stores = [s_ for s_ in walk_own(wl[0]) if isinstance(s_, (ast.Assign, ast.AugAssign)) and norm(s_.targets[0] if isinstance(s_, ast.Assign) else s_.target) == cn]
+            ok_acc = chunk is not None and len(ex) == 1 and norm(ex[0].args[0]) == chunk and rets == ['data'] and len(decs) == 1 and len(stores) == 1 and \
+                decs[0][1] is ast.Sub and norm(decs[0][2]) == 'len(%s)' % chunk
+        else:
+            ctx.need(False, '_readData: neither the size - len(data) nor the missing-bytes counter scheme')
+        ctx.inst('R4', rdd, 'loop-until-complete', ok_loop, 'the loop continues while bytes are missing; test %s' % conj)
+        ctx.inst('R4', rdd, 'request-missing-bytes', ok_req, 'each recv asks for exactly the missing bytes; found %s' % [norm(c) for c in rc])
+        ctx.inst('R4', rdd, 'accumulate-in-order', ok_acc, 'received chunks are appended in order, the count of missing bytes drops by the length of the chunk just received, and the buffer is returned')
 
     # ---- R5 --------------------------------------------------------------------------------
     R = m.cls(CPX, 'CPXRouter')
